@@ -54,7 +54,8 @@ def filters : List (String × (Attr → Bool)) :=
    ("config+state", fun _ => true), ("config+nostate", fun a => a.cfg), ("config-or-state", fun _ => true),
    ("opd", fun _ => false), ("excl-opd", fun _ => true), ("none", fun _ => false),
    -- (the nodes of the model are data nodes: none of them is an operational command)
-   ("nostate", fun a => a.cfg), ("opd+state", fun a => !a.cfg), ("excl-opd-state", fun a => a.cfg)]
+   ("nostate", fun a => a.cfg), ("opd+state", fun a => !a.cfg), ("excl-opd-state", fun a => a.cfg),
+   ("keep-all", fun _ => true)]
 
 def handleFilter (j : Json) : List (String × Json) :=
   let top := (jarr j "top").map loadA
